@@ -180,6 +180,9 @@ func RunCheck(prop string, opt CheckOptions) *CheckResult {
 		}
 		defer os.RemoveAll(scratch)
 		vfam := ValidatorFamily()
+		if opt.Tier == "thorough" {
+			vfam = append(vfam, ValidatorFamilySampled(24)...)
+		}
 		mod, gerr := GenerateValidatorFamily(opt.RepoDir, vfam, scratch)
 		if gerr != nil {
 			famErr = gerr
@@ -200,6 +203,9 @@ func RunCheck(prop string, opt CheckOptions) *CheckResult {
 		}
 		defer os.RemoveAll(scratch)
 		sfam := SecurityFamily()
+		if opt.Tier == "thorough" {
+			sfam = append(sfam, SecurityFamilySampled(24)...)
+		}
 		mod, gerr := GenerateSecurityFamily(opt.RepoDir, sfam, scratch)
 		if gerr != nil {
 			// the generator of the current tree fails on a member of the family: that is reported, and
